@@ -135,7 +135,11 @@ def judge_big(ctx, s, res):
     if kind == "bigvar":
         chk(f"varpc_n(np.array({n}))", lambda: prs.varpc_n(np.array(n)), res["var"], "varpc_n")
         chk(f"varpc_n(float array {n})", lambda: prs.varpc_n(np.array(n, dtype=float)), res["var"], "varpc_n/float")
-        chk(f"stdpc_n(np.array({n}))", lambda: prs.stdpc_n(np.array(n)), res["var"], "stdpc_n", sqrt=True)
+        chk(f"stdpc_n(np.array({n}))"[:200], lambda: prs.stdpc_n(np.array(n)), res["var"], "stdpc_n", sqrt=True)
+        if s.get("diverse"):
+            xs = np.repeat(np.arange(len(n)), n)
+            ctx.rng.shuffle(xs)
+            chk(f"stdpc(sample of {len(xs)} with {len(n)} categories)", lambda: prs.stdpc(xs), res["var"], "stdpc", sqrt=True)
     if kind == "bigcross" and sum(n) <= 300000 and sum(m) <= 400000:
         x = np.repeat(np.arange(len(n)), n)
         y = np.repeat(np.arange(len(m)), m)
@@ -213,6 +217,12 @@ def run(ctx):
         if k == "bigcross":
             m = [ctx.rng.randint(1, 90000) for _ in n]
         big.append(dict(sid=7000 + r, kind=k, n=n, m=m))
+    # diverse samples: hundreds of categories, nearly all seen once, a handful of coincidences - the variance is tiny (1e-8 .. 1e-10)
+    # but positive, and its square root is what stdpc_n / stdpc report
+    for j, (trip, dbl, N) in enumerate(((1, 6, 300), (2, 20, 1200)) if q else ((1, 6, 300), (2, 20, 1200), (0, 3, 400), (3, 40, 5000))):
+        n = [3] * trip + [2] * dbl
+        n += [1] * (N - sum(n))
+        big.append(dict(sid=7900 + j, kind="bigvar", n=n, m=[], diverse=True))
     bout = estim.evaluate(ctx, big)
     for s in big:
         ctx.case(dict(kind="sampled:" + s["kind"], n=s["n"], m=s["m"]), nontrivial=True)
